@@ -94,9 +94,26 @@ pub fn run_one(item: &Value, workdir: &std::path::Path) -> Value {
                 let mut c = Compiler::new(cfg);
                 let r = c.compile_module();
                 let mut types = serde_json::Map::new();
+                // "values": the value inside a singleton type {v}, structurally (class + exact value; floats as bit pattern)
+                let mut values = serde_json::Map::new();
                 for n in &names {
                     if let Some((_, vi)) = c.get_var_info(n) {
                         types.insert(n.clone(), json!(format!("{}", vi.t)));
+                        if let Some(erg_compiler::ty::TyParam::Value(v)) = vi.t.singleton_value() {
+                            use erg_compiler::ty::ValueObj as V;
+                            let (cls, repr) = match v {
+                                V::Int(i) => ("Int", i.to_string()),
+                                V::Nat(u) => ("Nat", u.to_string()),
+                                V::Float(f) => ("Float", (**f).to_bits().to_string()),
+                                V::Bool(b) => ("Bool", b.to_string()),
+                                V::Str(s) => ("Str", s.to_string()),
+                                V::Inf => ("Inf", String::new()),
+                                V::NegInf => ("NegInf", String::new()),
+                                V::Failure => ("Failure", String::new()),
+                                other => ("Other", format!("{other}")),
+                            };
+                            values.insert(n.clone(), json!({"cls": cls, "v": repr}));
+                        }
                     }
                 }
                 match r {
@@ -105,9 +122,9 @@ pub fn run_one(item: &Value, workdir: &std::path::Path) -> Value {
                         if mode2 != "check" {
                             art.object.dump_as_pyc(&pyc_path, magic).unwrap();
                         }
-                        json!({"status": "ok", "pyc": pyc_path, "warns": warns, "types": types})
+                        json!({"status": "ok", "pyc": pyc_path, "warns": warns, "types": types, "values": values})
                     }
-                    Err(e) => json!({"status": "err", "errors": e.errors.iter().map(err_json).collect::<Vec<_>>(), "warns": e.warns.iter().map(err_json).collect::<Vec<_>>(), "types": types}),
+                    Err(e) => json!({"status": "err", "errors": e.errors.iter().map(err_json).collect::<Vec<_>>(), "warns": e.warns.iter().map(err_json).collect::<Vec<_>>(), "types": types, "values": values}),
                 }
             }
         }
